@@ -25,8 +25,10 @@ def declare(E):
                         "is_prefix": "len(result) <= len(old(ghost('conn_in'))) and result == old(ghost('conn_in'))[0:len(result)]"},
                ghost={"conn_in": "ghost('conn_in')[len(result):]"},
                raises={"SSHException": "len(old(ghost('conn_in'))) < wanted"},
-               loops={0: dict(inv=["result + ghost('conn_in') == old(ghost('conn_in'))", "len(result) <= wanted"],
-                              variant="wanted - len(result)", vars={"extra": "bytes"})},
+               loops={0: dict(inv=["result + ghost('conn_in') == old(ghost('conn_in'))", "len(result) <= wanted",
+                                   # nothing read so far although something was asked for: the stream had ended
+                                   "implies(len(result) == 0 and wanted > 0, len(old(ghost('conn_in'))) == 0)"],
+                              variant="wanted - len(result)", havoc_ghosts=["conn_in"], vars={"extra": "bytes"})},
                returns="bytes", modifies=[])
     E.contract(A + "AgentSSH._send_message", params={"msg": "obj:Message"},
                requires={"length_fits": "len(msg.packet.getvalue()) < 2**32"},
